@@ -104,7 +104,7 @@ Inductive schema_change : Type :=
 
 (* Vec::with_capacity(number_of_arguments) of Strings, then the arguments *)
 Definition read_arg_list : parser (list bytes) :=
-  n <- read_short ;; tick_alloc (u16 n * SZ_STRING) ;;; repeatS read_string n.
+  n <- read_short ;; tick_alloc_capped n 2 SZ_STRING ;;; repeatS read_string n.
 
 Definition deser_schema_change : parser schema_change :=
   cts <- read_string ;;
